@@ -49,6 +49,12 @@ Theorem C17_elementwise_skeleton_is_size_generic : forall f ins ins' dout dout',
 Proof. exact skel_elementwise. Qed.
 Print Assumptions C17_elementwise_skeleton_is_size_generic.
 
+Theorem C17_new_axes_skeleton_is_size_generic : forall k din dout din' dout',
+  lnames din = lnames din' -> lnames dout = lnames dout' ->
+  skel (lower_broadcast k din dout) = skel (lower_broadcast k din' dout').
+Proof. exact skel_broadcast. Qed.
+Print Assumptions C17_new_axes_skeleton_is_size_generic.
+
 Theorem C17_reduction_skeleton_is_size_generic : forall f din dout din' dout',
   lnames din = lnames din' -> lmarks din = lmarks din' -> lnames dout = lnames dout' ->
   skel (lower_reduce f din dout) = skel (lower_reduce f din' dout').
